@@ -146,6 +146,18 @@ CHECKS = {
    note='Trusted: z3, the level-assembler contract (C01/C08), real transfer matrices (entries replaced by the dyadic rational within 1e-12), tolerance 1e-9 for symbols in [-1,1]. '
         'The quantifier over refinement histories is by ENUMERATION inside the stated family and is not a solver verdict; the quantifier over forms/geometries/data is the solver\'s.',
    technique='symbolic execution of real Python source on enumerated hierarchical spaces with symbolic level matrices + z3 (LRA)'),
+ 'C08': dict(
+   category='other', design_ref='4/C08',
+   text='Bounded symbolic verification of the assembly drivers: assemble_entries/assemble_entries_vec (source), the transliterated base assembler classes, vector cores with '
+        'symmetric mirroring and block transposition, multi_entries/multi_blocks chunk dispatch and chunk_tasks run with an entry function that returns symbolic (block) entries '
+        '(contract of generated assemblers: writes only for overlapping supports). z3 proves for 1D-3D spaces (also two different spaces), 1-3 components incl. non-square blocks, '
+        'that symmetric=True (under the symmetry contract) and symmetric=False, formats csr/csc/coo/bsr/mlb and layouts packed/blocked all produce the matrix of the entry function '
+        '(blocked = documented permutation), that arbitrary index lists (symbolic pairs, duplicates, pairs outside the pattern) give the same entries for 1/2/3/16 threads and every '
+        'chunk order, that chunks partition the tasks in order, and that outer iterations of the parallel vector kernel have pairwise disjoint write sets and read only their own writes '
+        '(hence any schedule gives the same memory contents).',
+   note='Trusted: z3, cyx transliteration (signed casts kept), entry-function contract (C01), sequentialised thread pool / prange, symsparse BSR/COO models. Spaces are concrete and enumerated; '
+        'entries and index pairs are symbolic. Real threads/OpenMP are outside the claim. Configurations rejected by an explicit "not implemented" assertion (1D symmetric) are counted, not failures.',
+   technique='symbolic execution of real Python source + transliterated Cython with z3; write-set disjointness for schedule independence'),
 }
 
 NA = {
